@@ -1628,7 +1628,7 @@ KNOWN_LIMITS = {
     "RF5-C15-01-reader-length-flag": ("`packet_length: Option<usize>` becomes value + flag (anchored state)", ["C08/", "C12/", "C14/", "C15/"]),
     "RF5-C17-02-arena-struct": ("`Outbound::{buf, used}` (anchored state of C17) grouped into a private `Arena` struct", ["C01/", "C02/", "C12/", "C17/"]),
     "RF5-C18-04-generation-in-outbound": ("the generation counter (anchored state of C05/C18) moves from SessionData into Outbound", ["C05/", "C18/"]),
-    "RF5-C09-02-ser-body-len-cursor": ("`MqttSerializer::index` (anchored state of C01.len and of the exact-fit clause) replaced by a body-length counter", ["C01/len/", "C09/fit/exact/", "C12/fit/exact/"]),
+    "RF5-C09-02-ser-body-len-cursor": ("`MqttSerializer::index` (anchored state of C01.len) replaced by a body-length counter", ["C01/len/"]),
     "RF6-C17-h-repaired": ("the space needed after compaction is kept in a counter field (`retained_bytes`, maintained by the enqueue, the removal and "
                            "`clear()`) instead of being summed from the entries: the free-space clauses demand a function of the entries alone "
                            "(anchored representation; the seed it repairs forgets the reset in `clear()` and fails the same clauses)",
